@@ -61,6 +61,10 @@ def run : St → List Op → St × List (List Nat)
     let (s'', outs) := run s' ops
     (s'', out :: outs)
 
+/-- registered workers that are no longer alive: what the registry still retains of the dead
+    (observed on the real registry by the probe `d` of the correspondence) -/
+def dead (s : St) : Nat := s.reg.countP (fun x => decide (x ∉ s.alive))
+
 def final (ops : List Op) : St := (run {} ops).1
 
 end PwVerif.Registry
